@@ -478,3 +478,465 @@ func DeadErr(w *load.World, c *core.Collector) {
 		return nil
 	})
 }
+
+// memoKeyedByHashKey: where owners are remembered in a map (server per shard id, say), every
+// value put into the map that is a RendezvousHash owner is the owner of the very key it is stored
+// under. "The shard lives where it was created" stores the owner of the *user* (the destination of
+// the create request) under the *shard's* id: the first batch for the new shard goes to a server
+// that every other path never looks at.
+func memoKeyedByHashKey(w *load.World, c *core.Collector) {
+	props := []string{"C13", "C15", "C17"}
+	n := 0
+	bad := ""
+	var badAt ssa.Instruction
+	for _, f := range clusterFns(w) {
+		for _, b := range f.Blocks {
+			for _, in := range b.Instrs {
+				mu, ok := in.(*ssa.MapUpdate)
+				if !ok {
+					continue
+				}
+				mt, ok := mu.Map.Type().Underlying().(*types.Map)
+				if !ok {
+					continue
+				}
+				if bt, ok := mt.Elem().Underlying().(*types.Basic); !ok || bt.Kind() != types.String {
+					continue
+				}
+				var keys []ssa.Value
+				if k := hashKeyOf(mu.Value, 0); k != nil {
+					keys = append(keys, k)
+				}
+				for _, o := range ssax.Resolve(mu.Value) {
+					if len(o.Path) == 0 && o.Val != nil {
+						if k := hashKeyOf(o.Val, 0); k != nil {
+							keys = append(keys, k)
+						}
+					}
+				}
+				if len(keys) == 0 {
+					continue
+				}
+				n++
+				mp, _ := ssax.Path(mu.Key)
+				for _, k := range keys {
+					kp, _ := ssax.Path(k)
+					if k == mu.Key || (kp != "" && kp == mp) || peelToParam(k) == peelToParam(mu.Key) {
+						continue
+					}
+					bad = fmt.Sprintf("an owner computed by hashing %s is remembered under the key %s", describeVal(k), describeVal(mu.Key))
+					badAt = in
+				}
+			}
+		}
+	}
+	if bad != "" {
+		c.Add("ROUTE", "memo-keyed-by-hash-key", core.Violation, w.At(badAt), bad+": requests that look the owner up under that key are sent to a server that does not own it (and that no other path consults)", props...)
+	} else {
+		c.Add("ROUTE", "memo-keyed-by-hash-key", core.OK, "", fmt.Sprintf("%d remembered owners", n), props...)
+	}
+}
+
+// storeKeyForm: the shard registry is keyed by the shard directory as filepath.Join builds it from
+// the configured root. Every lookup, insertion and deletion uses a key of that form: a key that
+// went through filepath.Abs (or Clean, EvalSymlinks, Rel) on one path and not on the others does
+// not find the entry when the root is relative, and the shard is deleted while it is still open.
+func storeKeyForm(w *load.World, c *core.Collector) {
+	props := []string{"C12"}
+	n := 0
+	bad := ""
+	var badAt ssa.Instruction
+	transforms := func(v ssa.Value) string {
+		found := ""
+		seen := map[ssa.Value]bool{}
+		var walk func(v ssa.Value, d int)
+		walk = func(v ssa.Value, d int) {
+			if d > 10 || v == nil || seen[v] || found != "" {
+				return
+			}
+			seen[v] = true
+			switch x := v.(type) {
+			case *ssa.Call:
+				if g := x.Call.StaticCallee(); g != nil && strings.HasPrefix(g.String(), "path/filepath.") {
+					switch g.Name() {
+					case "Abs", "EvalSymlinks", "Rel", "Clean", "ToSlash", "FromSlash":
+						found = "filepath." + g.Name()
+						return
+					}
+				}
+				for _, a := range x.Call.Args {
+					walk(a, d+1)
+				}
+			case *ssa.Extract:
+				walk(x.Tuple, d+1)
+			case *ssa.Phi:
+				for _, e := range x.Edges {
+					walk(e, d+1)
+				}
+			case *ssa.UnOp:
+				if al, ok := x.X.(*ssa.Alloc); ok {
+					for _, r := range *al.Referrers() {
+						if st, ok := r.(*ssa.Store); ok && st.Addr == ssa.Value(al) {
+							walk(st.Val, d+1)
+						}
+					}
+					return
+				}
+				walk(x.X, d+1)
+			case *ssa.Slice:
+				walk(x.X, d+1)
+			case *ssa.Alloc:
+				for _, r := range *x.Referrers() {
+					if ia, ok := r.(*ssa.IndexAddr); ok {
+						for _, rr := range *ia.Referrers() {
+							if st, ok := rr.(*ssa.Store); ok {
+								walk(st.Val, d+1)
+							}
+						}
+					}
+				}
+			case *ssa.Parameter:
+				for i, q := range x.Parent().Params {
+					if q != x {
+						continue
+					}
+					for _, site := range staticCallSites(w, x.Parent()) {
+						if i < len(site.Common().Args) {
+							walk(site.Common().Args[i], d+1)
+						}
+					}
+				}
+			}
+		}
+		walk(v, 0)
+		return found
+	}
+	isStore := func(m ssa.Value) bool {
+		p, _ := ssax.Path(m)
+		return strings.Contains(p, "shardStore")
+	}
+	for _, f := range clusterFns(w) {
+		for _, b := range f.Blocks {
+			for _, in := range b.Instrs {
+				var key ssa.Value
+				switch x := in.(type) {
+				case *ssa.Lookup:
+					if isStore(x.X) {
+						key = x.Index
+					}
+				case *ssa.MapUpdate:
+					if isStore(x.Map) {
+						key = x.Key
+					}
+				case *ssa.Call:
+					if bi, ok := x.Call.Value.(*ssa.Builtin); ok && bi.Name() == "delete" && isStore(x.Call.Args[0]) {
+						key = x.Call.Args[1]
+					}
+				}
+				if key == nil {
+					continue
+				}
+				n++
+				if t := transforms(key); t != "" {
+					bad, badAt = t, in
+				}
+			}
+		}
+	}
+	switch {
+	case n < 3:
+		c.Add("LIFECYCLE", "store-key-form", core.Undecided, "", fmt.Sprintf("found %d uses of the shard registry, expected at least 3", n), props...)
+	case bad != "":
+		c.Add("LIFECYCLE", "store-key-form", core.Violation, w.At(badAt), "the shard registry is consulted under a key that went through "+bad+" while the entry was registered under the plain joined path: with a relative root directory the lookup misses, and the shard is removed (or loaded a second time) while it is registered and open", props...)
+	default:
+		c.Add("LIFECYCLE", "store-key-form", core.OK, "", "", props...)
+	}
+}
+
+// MAPORDER: one function walks the same unordered collection twice (two `range` statements over
+// one map, or two ForEach passes over a cache that is a map inside) and lines the two walks up by
+// position: a running counter of one walk indexes what the other walk filled in its own order.
+// Go randomises map iteration per range statement, so position k of the second walk is not the
+// element that was at position k of the first: errors are attributed to other shards, codes to
+// other points.
+func MapOrder(w *load.World, c *core.Collector) {
+	per := map[string][]lintHit{}
+	seen := map[string]bool{}
+	type iter struct {
+		at              ssa.Instruction
+		counterIndexes  bool
+		counter, append bool
+	}
+	isInc := func(v ssa.Value, of ssa.Value) bool {
+		bo, ok := v.(*ssa.BinOp)
+		if !ok || bo.Op != token.ADD {
+			return false
+		}
+		one, isC := ssax.ConstInt(bo.Y)
+		return isC && one == 1 && bo.X == of
+	}
+	for _, top := range w.Fns {
+		if !load.InMod(top) || top.Synthetic != "" || top.Parent() != nil {
+			continue
+		}
+		pkg := load.PkgPath(top)
+		seen[pkg] = true
+		groups := map[string][]iter{}
+		var fns []*ssa.Function
+		var collect func(f *ssa.Function)
+		collect = func(f *ssa.Function) {
+			fns = append(fns, f)
+			for _, a := range f.AnonFuncs {
+				collect(a)
+			}
+		}
+		collect(top)
+		for _, f := range fns {
+			for _, b := range f.Blocks {
+				for _, in := range b.Instrs {
+					switch x := in.(type) {
+					case *ssa.Range:
+						if _, isMap := x.X.Type().Underlying().(*types.Map); !isMap {
+							continue
+						}
+						id, _ := ssax.Path(x.X)
+						if id == "" {
+							continue
+						}
+						// the loop: header is where Next sits
+						var hdr *ssa.BasicBlock
+						for _, r := range *x.Referrers() {
+							if nx, ok := r.(*ssa.Next); ok {
+								hdr = nx.Block()
+							}
+						}
+						if hdr == nil {
+							continue
+						}
+						it := iter{at: in}
+						inBody := func(bb *ssa.BasicBlock) bool { return bb == hdr || (hdr.Dominates(bb) && ssax.Reaches(bb, hdr)) }
+						var counters []*ssa.Phi
+						for _, hi := range hdr.Instrs {
+							phi, ok := hi.(*ssa.Phi)
+							if !ok {
+								continue
+							}
+							if bt, ok := phi.Type().Underlying().(*types.Basic); !ok || bt.Info()&types.IsInteger == 0 {
+								continue
+							}
+							for _, e := range phi.Edges {
+								if isInc(e, phi) {
+									counters = append(counters, phi)
+								}
+							}
+						}
+						it.counter = len(counters) > 0
+						for _, bb := range f.Blocks {
+							if !inBody(bb) {
+								continue
+							}
+							for _, bi := range bb.Instrs {
+								if call, ok := bi.(*ssa.Call); ok {
+									if bl, ok := call.Call.Value.(*ssa.Builtin); ok && bl.Name() == "append" {
+										it.append = true
+									}
+								}
+								for _, ctr := range counters {
+									if ia, ok := bi.(*ssa.IndexAddr); ok && (ia.Index == ssa.Value(ctr) || isConvOf(ia.Index, ctr)) {
+										it.counterIndexes = true
+									}
+									// handed to a goroutine or literal that indexes with it
+									if ci, ok := bi.(ssa.CallInstruction); ok {
+										for ai, a := range ci.Common().Args {
+											if a != ssa.Value(ctr) {
+												continue
+											}
+											if g := staticTargetOf(ci.Common()); g != nil && ai < len(g.Params) {
+												for _, r := range *g.Params[ai].Referrers() {
+													if ia, ok := r.(*ssa.IndexAddr); ok && ia.Index == ssa.Value(g.Params[ai]) {
+														it.counterIndexes = true
+													}
+												}
+											}
+										}
+									}
+								}
+							}
+						}
+						groups[id] = append(groups[id], it)
+					case *ssa.Call:
+						name := ""
+						var recv ssa.Value
+						if x.Call.IsInvoke() {
+							name, recv = x.Call.Method.Name(), x.Call.Value
+						} else if g := x.Call.StaticCallee(); g != nil && g.Signature.Recv() != nil && len(x.Call.Args) > 0 {
+							name, recv = g.Name(), x.Call.Args[0]
+						}
+						if name != "ForEach" || recv == nil {
+							continue
+						}
+						var lit *ssa.Function
+						var mc *ssa.MakeClosure
+						for _, a := range x.Call.Args {
+							if m, ok := a.(*ssa.MakeClosure); ok {
+								mc = m
+								lit, _ = m.Fn.(*ssa.Function)
+							}
+						}
+						if lit == nil {
+							continue
+						}
+						id, _ := ssax.Path(recv)
+						if id == "" {
+							continue
+						}
+						id = "foreach:" + id
+						it := iter{at: in}
+						for i, fv := range lit.FreeVars {
+							_ = mc
+							_ = i
+							isCounter := false
+							var loads []ssa.Value
+							for _, r := range *fv.Referrers() {
+								if ld, ok := r.(*ssa.UnOp); ok && ld.Op == token.MUL {
+									loads = append(loads, ld)
+								}
+							}
+							for _, r := range *fv.Referrers() {
+								if st, ok := r.(*ssa.Store); ok && st.Addr == ssa.Value(fv) {
+									for _, ld := range loads {
+										if isInc(st.Val, ld) {
+											isCounter = true
+										}
+									}
+								}
+							}
+							if !isCounter {
+								continue
+							}
+							it.counter = true
+							for _, lb := range lit.Blocks {
+								for _, li := range lb.Instrs {
+									if ia, ok := li.(*ssa.IndexAddr); ok {
+										for _, ld := range loads {
+											if ia.Index == ld || isConvOf(ia.Index, ld) {
+												it.counterIndexes = true
+											}
+										}
+									}
+								}
+							}
+						}
+						for _, lb := range lit.Blocks {
+							for _, li := range lb.Instrs {
+								if call, ok := li.(*ssa.Call); ok {
+									if bl, ok := call.Call.Value.(*ssa.Builtin); ok && bl.Name() == "append" {
+										it.append = true
+									}
+								}
+							}
+						}
+						groups[id] = append(groups[id], it)
+					}
+				}
+			}
+		}
+		for id, its := range groups {
+			if len(its) < 2 {
+				continue
+			}
+			for i, a := range its {
+				if !a.counterIndexes {
+					continue
+				}
+				for j, b := range its {
+					if i == j || !(b.counter || b.append) {
+						continue
+					}
+					per[pkg] = append(per[pkg], lintHit{w.At(a.at), "this walk over " + strings.TrimPrefix(id, "foreach:") + " indexes by its running position what another walk over the same unordered collection (" + w.At(b.at) + ") produced in its own order: the two orders differ (map iteration is randomised per walk), so position k here is another element there"})
+				}
+			}
+		}
+	}
+	for p := range per {
+		per[p] = dedupeHits(per[p])
+	}
+	emitLint(c, "MAPORDER", "two-walks-by-position", seen, per, func(p string) []string {
+		if strings.HasSuffix(p, "/cluster") {
+			return []string{"C15"}
+		}
+		return nil
+	})
+}
+
+func dedupeHits(hs []lintHit) []lintHit {
+	seen := map[string]bool{}
+	var out []lintHit
+	for _, h := range hs {
+		if !seen[h.where] {
+			seen[h.where] = true
+			out = append(out, h)
+		}
+	}
+	return out
+}
+
+func isConvOf(v ssa.Value, of ssa.Value) bool {
+	if cv, ok := v.(*ssa.Convert); ok {
+		return cv.X == of
+	}
+	return false
+}
+
+func staticTargetOf(cc *ssa.CallCommon) *ssa.Function {
+	if g := cc.StaticCallee(); g != nil {
+		return g
+	}
+	if mc, ok := cc.Value.(*ssa.MakeClosure); ok {
+		g, _ := mc.Fn.(*ssa.Function)
+		return g
+	}
+	return nil
+}
+
+// GLOBROOT: filepath.Glob is given a pattern that contains a path which is not a constant (a
+// configured directory). A '[' , '*' or '?' in that path is read as a pattern: the glob silently
+// matches nothing and whatever was to be found there (shard files to move) is skipped without error.
+func GlobRoot(w *load.World, c *core.Collector) {
+	per := map[string][]lintHit{}
+	seen := map[string]bool{}
+	for _, f := range w.Fns {
+		if !load.InMod(f) || f.Synthetic != "" {
+			continue
+		}
+		pkg := load.PkgPath(f)
+		seen[pkg] = true
+		for _, b := range f.Blocks {
+			for _, in := range b.Instrs {
+				call, ok := in.(*ssa.Call)
+				if !ok || staticName(call) != "path/filepath.Glob" || len(call.Call.Args) != 1 {
+					continue
+				}
+				if _, isC := call.Call.Args[0].(*ssa.Const); isC {
+					continue
+				}
+				o := provDeep(w, call.Call.Args[0])
+				variable := false
+				for k := range o {
+					if strings.HasPrefix(k, "field:") || strings.HasPrefix(k, "param:") || strings.Contains(k, "freevar:") {
+						variable = true
+					}
+				}
+				if variable {
+					per[pkg] = append(per[pkg], lintHit{w.At(in), "filepath.Glob is given a pattern built from a directory that is not a constant: a '[', '*' or '?' in that directory's name is read as part of the pattern, the glob matches nothing and reports no error"})
+				}
+			}
+		}
+	}
+	emitLint(c, "GLOBROOT", "pattern-from-path", seen, per, func(p string) []string {
+		if strings.HasSuffix(p, "/cluster") {
+			return []string{"C14"}
+		}
+		return nil
+	})
+}
